@@ -11,7 +11,7 @@ import (
 
 func init() {
 	register("C08",
-		"no function reachable from the exported API (or from a registered builtin) other than `init` writes package-level state (a package-level sync.Map that is provably a memo of a pure function of its key - memo.go - is not hidden state), directly or by handing a package-level object to a callee that writes through that parameter (interprocedural parameter-write summaries); evaluation and field analysis never write through the tree they are given (node, token node, node list, source) - not even lazily; every parse allocates its own parser, scanner and source; the only ambient inputs (clock, random numbers, environment, runtime identity) are read by the builtins registered as `now` and `toDay`; loops over Go maps do not let the iteration order reach a result. No package-level map or slice is installed in a field that is written through elsewhere (shared state between objects); decimal results and reflective writes go into objects created in the same function. A comparison function that orders map keys by (reflect.Value).String() orders nothing for keys that are not strings.",
+		"no function reachable from the exported API (or from a registered builtin) other than `init` writes package-level state (a package-level sync.Map that is provably a memo of a pure function of its key - memo.go - is not hidden state), directly or by handing a package-level object to a callee that writes through that parameter (interprocedural parameter-write summaries); evaluation and field analysis never write through the tree they are given (node, token node, node list, source) - not even lazily; every parse allocates its own parser, scanner and source; the only ambient inputs (clock, random numbers, environment, runtime identity) are read by the builtins registered as `now` and `toDay`; loops over Go maps do not let the iteration order reach a result. No package-level map or slice is installed in a field that is written through elsewhere (shared state between objects); decimal results and reflective writes go into objects created in the same function. A comparison function that orders map keys by (reflect.Value).String() orders nothing for keys that are not strings. Every operand that a formatting call reachable from evaluation prints with a value verb has a static type that cannot carry an address (or is a recovered panic value, or the text is only compared).",
 		"equality of repeated results as values (only its causes - no hidden state, no ambient input, no order dependence - are decided) and determinism inside the standard library / decimal library.",
 		runC08)
 }
@@ -24,6 +24,7 @@ func runC08(c *Ctx) {
 	c08FreshParser(c)
 	c08Ambient(c)
 	c08MapOrder(c)
+	c08NoAddressInText(c)
 }
 
 // apiReach: module functions reachable from any exported function/method or registered builtin.
